@@ -4,8 +4,10 @@ mod gen_pure;
 mod gen_solver;
 mod hset;
 mod solver;
+mod treeck;
 mod vset;
 mod pure;
+mod report;
 mod util;
 
 use cases::Sink;
@@ -29,6 +31,7 @@ fn main() {
                 "C01" | "C02" | "C03" | "C04" | "C05" | "C06" | "C12" | "C14" => {
                     gen_solver::gen_solver::<pubgrub::Range<u32>>(&mut sink, prop, thorough, seed, debug, n)
                 }
+                "C08" | "C09" => gen_solver::gen_trees(&mut sink, prop, thorough, seed, debug),
                 "C13" => gen_solver::gen_c13(&mut sink, thorough, seed, debug),
                 "C17" => gen_solver::gen_c17(&mut sink, thorough, seed, debug),
                 p => {
